@@ -8,7 +8,7 @@ use crate::ir::value_meta::ValueEnvironment;
 use crate::ssa::traits::DirectedGraphNode;
 
 use crate::ir::variable_meta::{VariableMeta, VariableUses};
-use crate::ir::{Meta, Statement};
+use crate::ir::{Expression, Meta, Statement};
 
 type Index = usize;
 type IndexSet = HashSet<Index>;
@@ -140,8 +140,17 @@ impl BasicBlock {
 
     pub fn propagate_values(&mut self, env: &mut ValueEnvironment) -> bool {
         trace!("propagating values for basic block {}", self.index());
+        // A phi statement with fewer arguments than the block has predecessors may lack an
+        // argument for an incoming edge on which the variable is still unassigned (and holds
+        // its default value), so its arguments alone do not determine a value.
+        let nof_predecessors = self.predecessors.len();
         let mut result = false;
         for stmt in self.iter_mut() {
+            if matches!(stmt, Statement::Substitution { rhe: Expression::Phi { args, .. }, .. }
+                if args.len() < nof_predecessors)
+            {
+                continue;
+            }
             result = result || stmt.propagate_values(env);
         }
         result
